@@ -1,13 +1,1504 @@
-//! C15 — not implemented yet (stub so that props/mod.rs never has to change).
-use crate::engine::PropSpec;
+//! C15 — Append-only and dry-run modes never remove or overwrite stored data.
+//!
+//! Two sub-checks, both judged on the operation log of the harness' in-memory backend:
+//!
+//! * `append_only`: generated programs (≤ 10 operations) of public repository operations on a
+//!   repository whose config says `append_only = true`. Invariant: while the flag is on the log
+//!   never contains an applied `Remove` of a snapshot / index / pack file nor a `Write` over an
+//!   existing file of these types, and every such file that existed before an operation exists
+//!   byte-identically after it. Differential: a destructive operation is also executed on a copy
+//!   of the storage whose config has the flag turned off; if that normal-mode run removes or
+//!   replaces such a file, the append-only run must fail and its log slice must not contain a
+//!   single `Write` / `Remove` of any file type. Operations that only add files must not be refused
+//!   (an additive operation that fails in append-only mode is re-run in normal mode; only if it
+//!   works there the failure is attributed to append-only mode).
+//! * `dry_run`: every command with a dry-run flag x generated arguments on a repository with a
+//!   generated history (and generated damage where a repair needs something to repair): the log
+//!   slice of the command holds no `Write`, `Remove` or `Create` on any store involved and the
+//!   storage content is byte-identical afterwards; for `prepare_restore` the (pre-populated)
+//!   destination directory is unchanged as well.
+
+use std::{
+    cmp::Ordering,
+    collections::BTreeMap,
+    path::Path,
+    sync::Arc,
+};
+
+use proptest::prelude::*;
+use rustic_core::{
+    BackupOptions, ConfigOptions, FileType, Id, KeyOptions, LocalDestination, LsOptions, PruneOptions,
+    RepairIndexOptions, RepairSnapshotsOptions, Repository, RepositoryBackends, RestoreOptions,
+    RewriteOptions, RewriteTreesOptions, WriteBackend,
+    repofile::{KeyId, Node, SnapshotFile, SnapshotId, SnapshotModification},
+};
+use serde::{Deserialize, Serialize};
+use vpcore::fmt::BType;
+
+use crate::{
+    cmds,
+    engine::{Ctx, DynSub, Outcome, PropSpec, Sub, guarded, pick_idx},
+    fsutil::{FsKind, Scratch, walk},
+    r#gen::{Edit, TreeParams, apply_edit, edit, tree},
+    history::{HOp, PruneCfg, World, hop, prune_cfg},
+    inspect::{index_view, to_id},
+    membe::{Files, Op, OpKind, OpLog, Storage, tidx},
+    model::{MNode, ReadSchedule},
+    repo::{
+        RepoCfg, backends, backup_tree, estr, force_opts, open_full, open_ids, open_repo, repo_cfg,
+        repo_opts, snap_template,
+    },
+    restore::restore_snapshot,
+};
+
+fn params(cfg: &RepoCfg) -> TreeParams {
+    let mut p = super::c07::params(cfg);
+    p.file_cap = 60_000;
+    p.max_children = 3;
+    p
+}
+
+// ------------------------------------------------------------------ log predicates
+
+/// snapshot, index and pack files: the file types the statement protects
+fn sip(t: FileType) -> bool {
+    matches!(t, FileType::Snapshot | FileType::Index | FileType::Pack)
+}
+
+fn show_op(o: &Op) -> String {
+    format!(
+        "{:?} of {} file {} (store {}, applied: {}, reported ok: {}, existed before: {})",
+        o.kind,
+        o.tpe,
+        &o.id.to_hex()[..12],
+        o.store,
+        o.applied,
+        o.ok,
+        o.existed
+    )
+}
+
+/// first operation of the slice that removed or replaced a snapshot / index / pack file
+fn destructive(ops: &[Op]) -> Option<String> {
+    ops.iter()
+        .find(|o| {
+            sip(o.tpe)
+                && o.applied
+                && (o.kind == OpKind::Remove || (o.kind == OpKind::Write && o.existed))
+        })
+        .map(show_op)
+}
+
+/// first `Write` / `Remove` (and `Create` if asked) the slice contains, applied or not, any type
+fn first_mutation(ops: &[Op], with_create: bool) -> Option<String> {
+    ops.iter()
+        .find(|o| o.kind.mutating() || (with_create && o.kind == OpKind::Create))
+        .map(show_op)
+}
+
+/// every snapshot / index / pack file of `before` is in `after` with the same bytes
+fn lost_file(before: &Files, after: &Files) -> Option<String> {
+    for ((t, id), data) in before {
+        if !(*t == tidx(FileType::Snapshot) || *t == tidx(FileType::Index) || *t == tidx(FileType::Pack)) {
+            continue;
+        }
+        match after.get(&(*t, *id)) {
+            None => return Some(format!("{} file {} is gone", crate::membe::tfrom(*t), &id.to_hex()[..12])),
+            Some(d) if d != data => {
+                return Some(format!("{} file {} has other bytes", crate::membe::tfrom(*t), &id.to_hex()[..12]));
+            }
+            _ => {}
+        }
+    }
+    None
+}
+
+/// what the stored config says about append-only mode, read with the independent decoder
+fn stored_append_only(storage: &Arc<Storage>, cfg: &RepoCfg) -> Result<Option<bool>, String> {
+    let raw = storage
+        .get(FileType::Config, &Id::default())
+        .ok_or("no config file in the storage")?;
+    let json = vpcore::fmt::decode_file(&cfg.key64(), &raw).map_err(|e| format!("config file: {e}"))?;
+    let v: serde_json::Value = serde_json::from_slice(&json).map_err(|e| format!("config file: {e}"))?;
+    Ok(v.get("append_only").and_then(serde_json::Value::as_bool))
+}
+
+// ------------------------------------------------------------------ generated arguments
+
+#[derive(Debug, Clone, PartialEq, Eq, Serialize, Deserialize)]
+pub struct RwCfg {
+    /// rewrite trees as well (`rewrite_snapshots_and_trees`) or only the snapshot files
+    pub trees: bool,
+    pub forget: bool,
+    /// 0 = no exclude, else one of `GLOBS`
+    pub glob: u8,
+    pub all_trees: bool,
+    pub label: Option<String>,
+    pub add_tag: bool,
+    /// bit mask over the (sorted) snapshot list, 0 = all
+    pub mask: u8,
+}
+
+const GLOBS: [&str; 5] = ["", "!*", "!*a*", "!*e*", "!/s/*/*"];
+
+fn rw_cfg() -> BoxedStrategy<RwCfg> {
+    (
+        any::<bool>(),
+        any::<bool>(),
+        prop_oneof![2 => Just(0u8), 5 => 1u8..GLOBS.len() as u8],
+        prop::bool::weighted(0.2),
+        prop::option::weighted(0.5, "[a-z]{1,6}"),
+        prop::bool::weighted(0.3),
+        any::<u8>(),
+    )
+        .prop_map(|(trees, forget, glob, all_trees, label, add_tag, mask)| RwCfg {
+            trees,
+            forget,
+            glob,
+            all_trees,
+            label,
+            add_tag,
+            mask,
+        })
+        .boxed()
+}
+
+impl RwCfg {
+    fn options(&self, dry_run: bool) -> (RewriteOptions, Option<RewriteTreesOptions>) {
+        let mut m = SnapshotModification::default();
+        m.set_label = self.label.clone();
+        if self.add_tag {
+            m.add_tags = vec!["vp".parse().expect("tag")];
+        }
+        let opts = RewriteOptions::default()
+            .forget(self.forget)
+            .dry_run(dry_run)
+            .modification(m);
+        let trees = self.trees.then(|| {
+            let mut t = RewriteTreesOptions::default();
+            let g = GLOBS[usize::from(self.glob) % GLOBS.len()];
+            if !g.is_empty() {
+                t.excludes.globs = vec![g.to_string()];
+            }
+            t.all_trees = self.all_trees;
+            t
+        });
+        (opts, trees)
+    }
+}
+
+/// config changes the library accepts on any generated repository
+#[derive(Debug, Clone, PartialEq, Eq, Serialize, Deserialize)]
+pub struct CfgChange {
+    pub append_only: Option<bool>,
+    /// only applied to version 2 repositories
+    pub compression: Option<i32>,
+    pub treepack_size: Option<u32>,
+    pub datapack_size: Option<u32>,
+    pub extra_verify: Option<bool>,
+    pub min_pct: Option<u32>,
+}
+
+fn cfg_change() -> BoxedStrategy<CfgChange> {
+    (
+        prop_oneof![4 => Just(None), 2 => Just(Some(true)), 3 => Just(Some(false))],
+        prop::option::weighted(0.4, 0i32..=5),
+        prop::option::weighted(0.3, 0u32..100_000),
+        prop::option::weighted(0.3, 0u32..100_000),
+        prop::option::weighted(0.3, any::<bool>()),
+        prop::option::weighted(0.2, 0u32..=100),
+    )
+        .prop_map(|(append_only, compression, treepack_size, datapack_size, extra_verify, min_pct)| CfgChange {
+            append_only,
+            compression,
+            treepack_size,
+            datapack_size,
+            extra_verify,
+            min_pct,
+        })
+        .boxed()
+}
+
+impl CfgChange {
+    fn options(&self, cfg: &RepoCfg) -> ConfigOptions {
+        let mut o = ConfigOptions::default();
+        o.set_append_only = self.append_only;
+        if cfg.version >= 2 {
+            o.set_compression = self.compression;
+        }
+        o.set_treepack_size = self.treepack_size.map(|s| bytesize::ByteSize(u64::from(s)));
+        o.set_datapack_size = self.datapack_size.map(|s| bytesize::ByteSize(u64::from(s)));
+        o.set_extra_verify = self.extra_verify;
+        o.set_min_packsize_tolerate_percent = self.min_pct;
+        o
+    }
+}
+
+// ------------------------------------------------------------------ executing one operation
+
+/// One library operation with concrete arguments; can be executed on any storage holding the
+/// same repository (the real one or a fork of it).
+#[derive(Debug, Clone)]
+enum Prep {
+    Backup { tree: MNode, parent: bool, time: i64, cut: Option<u8>, dry_run: bool },
+    Forget { ids: Vec<SnapshotId> },
+    Save { snaps: Vec<SnapshotFile> },
+    Prune { opts: PruneOptions },
+    RepairIndex { read_all: bool, dry_run: bool },
+    RepairSnaps { snaps: Vec<SnapshotFile>, delete: bool, dry_run: bool },
+    Rewrite { snaps: Vec<SnapshotFile>, opts: RewriteOptions, trees: Option<RewriteTreesOptions> },
+    Config { opts: ConfigOptions },
+    AddKey { pass: String },
+    DeleteKey { id: KeyId },
+    CopyInto { src: Arc<Storage>, src_cfg: RepoCfg, snaps: Vec<SnapshotFile> },
+    Merge { snaps: Vec<SnapshotFile>, time: i64 },
+}
+
+#[derive(Debug, Default)]
+struct ExecOut {
+    key: Option<KeyId>,
+}
+
+fn exec(p: &Prep, storage: &Arc<Storage>, cfg: &RepoCfg) -> Result<ExecOut, String> {
+    let r = guarded(|| -> Result<ExecOut, String> {
+        let mut out = ExecOut::default();
+        match p {
+            Prep::Backup { tree, parent, time, cut, dry_run } => {
+                let be = storage.handle();
+                let repo = open_repo(be.clone(), cfg)?
+                    .to_indexed_ids()
+                    .map_err(|e| format!("to_indexed_ids: {}", estr(&e)))?;
+                if let Some(k) = cut {
+                    be.control(|c| c.cut_after_mut = Some(usize::from(*k)));
+                }
+                let mut opts: BackupOptions = if *parent { BackupOptions::default() } else { force_opts() };
+                opts.dry_run = *dry_run;
+                _ = backup_tree(&repo, tree, &ReadSchedule::default(), &opts, snap_template(*time, "host", "", ""))?;
+            }
+            Prep::Forget { ids } => {
+                open_repo(storage.handle(), cfg)?
+                    .delete_snapshots(ids)
+                    .map_err(|e| format!("delete_snapshots returned an error: {}", estr(&e)))?;
+            }
+            Prep::Save { snaps } => {
+                open_repo(storage.handle(), cfg)?
+                    .save_snapshots(snaps.clone())
+                    .map_err(|e| format!("save_snapshots returned an error: {}", estr(&e)))?;
+            }
+            Prep::Prune { opts } => {
+                let repo = open_repo(storage.handle(), cfg)?;
+                let plan = repo
+                    .prune_plan(opts)
+                    .map_err(|e| format!("prune_plan returned an error: {}", estr(&e)))?;
+                repo.prune(opts, plan)
+                    .map_err(|e| format!("prune returned an error: {}", estr(&e)))?;
+            }
+            Prep::RepairIndex { read_all, dry_run } => {
+                let repo = open_repo(storage.handle(), cfg)?;
+                let opts = RepairIndexOptions::default().read_all(*read_all);
+                repo.repair_index(&opts, *dry_run)
+                    .map_err(|e| format!("repair_index returned an error: {}", estr(&e)))?;
+            }
+            Prep::RepairSnaps { snaps, delete, dry_run } => {
+                let repo = open_full(storage, cfg)?;
+                let opts = RepairSnapshotsOptions::default().delete(*delete);
+                repo.repair_snapshots(&opts, snaps.clone(), *dry_run)
+                    .map_err(|e| format!("repair_snapshots returned an error: {}", estr(&e)))?;
+            }
+            Prep::Rewrite { snaps, opts, trees } => match trees {
+                Some(t) => {
+                    let repo = open_full(storage, cfg)?;
+                    _ = repo
+                        .rewrite_snapshots_and_trees(snaps.clone(), opts, t)
+                        .map_err(|e| format!("rewrite_snapshots_and_trees returned an error: {}", estr(&e)))?;
+                }
+                None => {
+                    let repo = open_repo(storage.handle(), cfg)?;
+                    _ = repo
+                        .rewrite_snapshots(snaps.clone(), opts)
+                        .map_err(|e| format!("rewrite_snapshots returned an error: {}", estr(&e)))?;
+                }
+            },
+            Prep::Config { opts } => {
+                let mut repo = open_repo(storage.handle(), cfg)?;
+                _ = repo
+                    .apply_config(opts)
+                    .map_err(|e| format!("apply_config returned an error: {}", estr(&e)))?;
+            }
+            Prep::AddKey { pass } => {
+                let repo = open_repo(storage.handle(), cfg)?;
+                out.key = Some(
+                    repo.add_key(pass, &KeyOptions::default())
+                        .map_err(|e| format!("add_key returned an error: {}", estr(&e)))?,
+                );
+            }
+            Prep::DeleteKey { id } => {
+                open_repo(storage.handle(), cfg)?
+                    .delete_key(id)
+                    .map_err(|e| format!("delete_key returned an error: {}", estr(&e)))?;
+            }
+            Prep::CopyInto { src, src_cfg, snaps } => {
+                let from = open_full(src, src_cfg)?;
+                let to = open_ids(storage, cfg)?;
+                from.copy(&to, snaps.iter())
+                    .map_err(|e| format!("copy returned an error: {}", estr(&e)))?;
+            }
+            Prep::Merge { snaps, time } => {
+                let repo = open_full(storage, cfg)?;
+                let cmp = |a: &Node, b: &Node| -> Ordering { a.meta.mtime.cmp(&b.meta.mtime) };
+                _ = repo
+                    .merge_snapshots(snaps, &cmp, snap_template(*time, "host", "", "merged"))
+                    .map_err(|e| format!("merge_snapshots returned an error: {}", estr(&e)))?;
+            }
+        }
+        Ok(out)
+    });
+    match r {
+        Ok(x) => x,
+        Err(p) => Err(format!("panicked: {p}")),
+    }
+}
+
+/// run on the storage and return the result with the log slice of the run
+fn exec_logged(p: &Prep, storage: &Arc<Storage>, cfg: &RepoCfg) -> (Result<ExecOut, String>, Vec<Op>) {
+    let pos = storage.log.len();
+    let r = exec(p, storage, cfg);
+    let mut log = storage.log.snapshot();
+    let slice = log.split_off(pos.min(log.len()));
+    (r, slice)
+}
+
+/// a copy of the storage whose config has append-only mode turned off (through the library: the
+/// guard of `apply_config` lets exactly this change pass)
+fn normal_mode_fork(storage: &Arc<Storage>, cfg: &RepoCfg) -> Result<Arc<Storage>, String> {
+    let fork = storage.fork();
+    if stored_append_only(&fork, cfg)? == Some(true) {
+        let mut o = ConfigOptions::default();
+        o.set_append_only = Some(false);
+        exec(&Prep::Config { opts: o }, &fork, cfg)?;
+        if stored_append_only(&fork, cfg)? == Some(true) {
+            return Err("config still says append-only after turning it off".into());
+        }
+    }
+    Ok(fork)
+}
+
+/// snapshots as the library lists them, in an order that does not depend on the (random) file ids
+fn list_snaps(storage: &Arc<Storage>, cfg: &RepoCfg) -> Result<Vec<SnapshotFile>, String> {
+    let mut v = cmds::all_snapshots(storage, cfg)?;
+    v.sort_by_cached_key(|s| {
+        (
+            s.time.timestamp().as_second(),
+            s.original.is_some(),
+            s.label.clone(),
+            format!("{:?}", s.tags),
+            s.tree.to_hex().to_string(),
+            s.hostname.clone(),
+        )
+    });
+    Ok(v)
+}
+
+fn by_mask(snaps: &[SnapshotFile], mask: u8) -> Vec<SnapshotFile> {
+    let sel: Vec<SnapshotFile> = snaps
+        .iter()
+        .enumerate()
+        .filter(|(i, _)| mask == 0 || (mask >> (i % 8)) & 1 == 1)
+        .map(|(_, s)| s.clone())
+        .collect();
+    if sel.is_empty() { snaps.to_vec() } else { sel }
+}
+
+/// remove one data pack behind the library's back (the storage loses it; nothing is logged)
+fn lose_data_pack(storage: &Arc<Storage>, cfg: &RepoCfg, sel: u16) -> Result<bool, String> {
+    let view = index_view(storage, &cfg.key64())?;
+    let mut packs: Vec<_> = view
+        .packs
+        .iter()
+        .filter(|(p, b)| {
+            !b.is_empty() && b.iter().all(|x| x.0 == BType::Data) && storage.get(FileType::Pack, &to_id(p)).is_some()
+        })
+        .collect();
+    if packs.is_empty() {
+        return Ok(false);
+    }
+    // pack ids are random: order the candidates by content
+    packs.sort_by_key(|(_, b)| b.iter().map(|x| x.1).min());
+    let (pid, _) = packs[pick_idx(sel, packs.len())];
+    Ok(storage.del(FileType::Pack, &to_id(pid)))
+}
+
+// ------------------------------------------------------------------ sub-check: append_only
+
+#[derive(Debug, Clone, PartialEq, Eq, Serialize, Deserialize)]
+pub enum AOp {
+    Backup { edits: Vec<Edit>, parent: bool },
+    /// a backup on a handle that dies after `cut` mutating operations (a crash; leaves packs that
+    /// no index file lists)
+    CutBackup { edits: Vec<Edit>, cut: u8 },
+    Forget { sel: Vec<u16> },
+    /// save a relabelled copy of an existing snapshot
+    Save { sel: u16 },
+    Prune(PruneCfg),
+    RepairIndex { read_all: bool },
+    RepairSnapshots { delete: bool, mask: u8 },
+    Rewrite(RwCfg),
+    Config(CfgChange),
+    AddKey,
+    DeleteKey { sel: u16 },
+    /// copy snapshots of a second repository into the append-only one
+    CopyInto { mask: u8 },
+    Merge { mask: u8 },
+    /// the storage loses a data pack (not a library operation)
+    Damage { sel: u16 },
+}
+
+#[derive(Debug, Clone, Serialize, Deserialize)]
+pub struct AoCase {
+    pub cfg: RepoCfg,
+    pub src_cfg: RepoCfg,
+    pub tree: MNode,
+    /// true: `append_only` is in the config the repository is initialised with; false: it is
+    /// turned on with `apply_config` after the `pre` history
+    pub at_init: bool,
+    /// history in normal mode before the flag is turned on (ignored if `at_init`)
+    pub pre: Vec<HOp>,
+    /// second state of the source repository of `CopyInto`
+    pub src_edits: Vec<Edit>,
+    /// before the flag is turned on (not `at_init`): a data pack is lost and the index repaired, so
+    /// that snapshots with missing content exist while the repository is append-only
+    #[serde(default)]
+    pub pre_damage: Option<u16>,
+    pub ops: Vec<AOp>,
+}
+
+fn aop(p: TreeParams) -> BoxedStrategy<AOp> {
+    let edits = || prop::collection::vec(edit(p), 0..4);
+    prop_oneof![
+        10 => (edits(), any::<bool>()).prop_map(|(edits, parent)| AOp::Backup { edits, parent }),
+        4 => (edits(), 0u8..10).prop_map(|(edits, cut)| AOp::CutBackup { edits, cut }),
+        6 => prop::collection::vec(any::<u16>(), 1..3).prop_map(|sel| AOp::Forget { sel }),
+        2 => any::<u16>().prop_map(|sel| AOp::Save { sel }),
+        8 => prune_cfg().prop_map(AOp::Prune),
+        4 => any::<bool>().prop_map(|read_all| AOp::RepairIndex { read_all }),
+        5 => (any::<bool>(), prop_oneof![Just(0u8), any::<u8>()]).prop_map(|(delete, mask)| AOp::RepairSnapshots { delete, mask }),
+        6 => rw_cfg().prop_map(AOp::Rewrite),
+        3 => cfg_change().prop_map(AOp::Config),
+        1 => Just(AOp::AddKey),
+        1 => any::<u16>().prop_map(|sel| AOp::DeleteKey { sel }),
+        2 => any::<u8>().prop_map(|mask| AOp::CopyInto { mask }),
+        2 => any::<u8>().prop_map(|mask| AOp::Merge { mask }),
+        2 => any::<u16>().prop_map(|sel| AOp::Damage { sel }),
+    ]
+    .boxed()
+}
+
+fn ao_strategy(_ctx: &Ctx) -> BoxedStrategy<AoCase> {
+    (repo_cfg(), repo_cfg(), prop::bool::weighted(0.3))
+        .prop_flat_map(|(cfg, mut src_cfg, at_init)| {
+            if src_cfg.key_seed == cfg.key_seed {
+                src_cfg.key_seed += 1;
+            }
+            let p = params(&cfg);
+            let first = (prop::collection::vec(edit(p), 0..3), any::<bool>())
+                .prop_map(|(edits, parent)| AOp::Backup { edits, parent });
+            let pre = if at_init {
+                Just(Vec::new()).boxed()
+            } else {
+                prop::collection::vec(hop(p, true), 0..4)
+                    .prop_map(|mut v| {
+                        v.insert(0, HOp::Backup { edits: vec![], parent: false });
+                        v
+                    })
+                    .boxed()
+            };
+            (
+                Just(cfg),
+                Just(src_cfg),
+                tree(p),
+                Just(at_init),
+                pre,
+                prop::collection::vec(edit(p), 0..3),
+                prop::option::weighted(0.4, any::<u16>()),
+                // mostly start with a backup so that later operations have something to destroy
+                prop_oneof![4 => first.prop_map(Some), 1 => Just(None)],
+                prop::collection::vec(aop(p), 1..=9),
+            )
+        })
+        .prop_map(|(cfg, src_cfg, tree, at_init, pre, src_edits, pre_damage, first, mut ops)| {
+            if let Some(f) = first {
+                ops.insert(0, f);
+            }
+            AoCase {
+                cfg,
+                src_cfg,
+                tree,
+                at_init,
+                pre,
+                src_edits,
+                pre_damage: if at_init { None } else { pre_damage },
+                ops,
+            }
+        })
+        .boxed()
+}
+
+#[derive(Debug, Clone, Copy, PartialEq, Eq)]
+enum Class {
+    /// only ever adds files: must not be refused
+    Additive,
+    /// may remove or replace files in normal mode
+    Destructive,
+    /// judged by the invariant only
+    Neutral,
+}
+
+fn init_with(storage: &Arc<Storage>, cfg: &RepoCfg, append_only: bool) -> Result<(), String> {
+    let mut cf = cfg.config_file();
+    if append_only {
+        cf.append_only = Some(true);
+    }
+    let be = storage.handle();
+    let r = guarded(|| -> Result<(), String> {
+        _ = Repository::new(&repo_opts(), &backends(be))
+            .map_err(|e| estr(&e))?
+            .init_with_config(&cfg.credentials(), &KeyOptions::default(), cf)
+            .map_err(|e| format!("init: {}", estr(&e)))?;
+        Ok(())
+    });
+    match r {
+        Ok(x) => x,
+        Err(p) => Err(format!("init panicked: {p}")),
+    }
+}
+
+struct Phase {
+    cfg: RepoCfg,
+    src_cfg: RepoCfg,
+    storage: Arc<Storage>,
+    tree: MNode,
+    base_tree: MNode,
+    src_edits: Vec<Edit>,
+    clock: i64,
+    tick: i64,
+    keys: Vec<KeyId>,
+    nkeys: u32,
+    nsaved: u32,
+    src: Option<(Arc<Storage>, Vec<SnapshotFile>)>,
+}
+
+impl Phase {
+    fn edit(&mut self, edits: &[Edit]) {
+        self.tick += 1;
+        for e in edits {
+            _ = apply_edit(&mut self.tree, e, self.tick);
+        }
+    }
+
+    fn next_time(&mut self) -> i64 {
+        self.clock += 100;
+        self.clock
+    }
+
+    /// the source repository of `CopyInto`: two snapshots of states related to the main tree
+    fn source(&mut self) -> Result<(Arc<Storage>, Vec<SnapshotFile>), String> {
+        if let Some(s) = &self.src {
+            return Ok(s.clone());
+        }
+        let st = Storage::new();
+        init_with(&st, &self.src_cfg, false)?;
+        let mut t = self.base_tree.clone();
+        let mut snaps = Vec::new();
+        for round in 0..2 {
+            if round == 1 {
+                for e in &self.src_edits {
+                    _ = apply_edit(&mut t, e, 7);
+                }
+            }
+            let repo = open_ids(&st, &self.src_cfg)?;
+            snaps.push(backup_tree(
+                &repo,
+                &t,
+                &ReadSchedule::default(),
+                &force_opts(),
+                snap_template(1_600_000_000 + round, "other", "", "src"),
+            )?);
+        }
+        self.src = Some((st.clone(), snaps.clone()));
+        Ok((st, snaps))
+    }
+
+    /// concrete arguments for the operation; Ok(None) = not applicable in the current state
+    fn prepare(&mut self, op: &AOp) -> Result<Option<(Prep, Class)>, String> {
+        let cfg = self.cfg.clone();
+        Ok(Some(match op {
+            AOp::Backup { edits, parent } => {
+                self.edit(edits);
+                let time = self.next_time();
+                (
+                    Prep::Backup { tree: self.tree.clone(), parent: *parent, time, cut: None, dry_run: false },
+                    Class::Additive,
+                )
+            }
+            AOp::CutBackup { edits, cut } => {
+                let mut t = self.tree.clone();
+                self.tick += 1;
+                for e in edits {
+                    _ = apply_edit(&mut t, e, self.tick);
+                }
+                let time = self.next_time();
+                (
+                    Prep::Backup { tree: t, parent: false, time, cut: Some(*cut), dry_run: false },
+                    Class::Neutral,
+                )
+            }
+            AOp::Forget { sel } => {
+                let mut snaps = list_snaps(&self.storage, &cfg)?;
+                let mut ids = Vec::new();
+                for s in sel {
+                    if snaps.is_empty() {
+                        break;
+                    }
+                    ids.push(snaps.remove(pick_idx(*s, snaps.len())).id);
+                }
+                if ids.is_empty() {
+                    return Ok(None);
+                }
+                (Prep::Forget { ids }, Class::Destructive)
+            }
+            AOp::Save { sel } => {
+                let snaps = list_snaps(&self.storage, &cfg)?;
+                if snaps.is_empty() {
+                    return Ok(None);
+                }
+                let mut s = snaps[pick_idx(*sel, snaps.len())].clone();
+                self.nsaved += 1;
+                s.label = format!("saved-{}", self.nsaved);
+                (Prep::Save { snaps: vec![s] }, Class::Additive)
+            }
+            AOp::Prune(p) => (Prep::Prune { opts: p.options(&cfg) }, Class::Destructive),
+            AOp::RepairIndex { read_all } => (
+                Prep::RepairIndex { read_all: *read_all, dry_run: false },
+                Class::Destructive,
+            ),
+            AOp::RepairSnapshots { delete, mask } => {
+                let snaps = list_snaps(&self.storage, &cfg)?;
+                if snaps.is_empty() {
+                    return Ok(None);
+                }
+                (
+                    Prep::RepairSnaps { snaps: by_mask(&snaps, *mask), delete: *delete, dry_run: false },
+                    if *delete { Class::Destructive } else { Class::Additive },
+                )
+            }
+            AOp::Rewrite(rw) => {
+                let snaps = list_snaps(&self.storage, &cfg)?;
+                if snaps.is_empty() {
+                    return Ok(None);
+                }
+                let (opts, trees) = rw.options(false);
+                (
+                    Prep::Rewrite { snaps: by_mask(&snaps, rw.mask), opts, trees },
+                    if rw.forget { Class::Destructive } else { Class::Additive },
+                )
+            }
+            AOp::Config(ch) => (Prep::Config { opts: ch.options(&cfg) }, Class::Neutral),
+            AOp::AddKey => {
+                self.nkeys += 1;
+                (Prep::AddKey { pass: format!("pw-{}", self.nkeys) }, Class::Additive)
+            }
+            AOp::DeleteKey { sel } => {
+                if self.keys.is_empty() {
+                    return Ok(None);
+                }
+                let id = self.keys.remove(pick_idx(*sel, self.keys.len()));
+                (Prep::DeleteKey { id }, Class::Neutral)
+            }
+            AOp::CopyInto { mask } => {
+                let (src, snaps) = self.source()?;
+                (
+                    Prep::CopyInto { src, src_cfg: self.src_cfg.clone(), snaps: by_mask(&snaps, *mask) },
+                    Class::Additive,
+                )
+            }
+            AOp::Merge { mask } => {
+                let snaps = list_snaps(&self.storage, &cfg)?;
+                if snaps.is_empty() {
+                    return Ok(None);
+                }
+                let mut sel = by_mask(&snaps, *mask);
+                sel.truncate(3);
+                let time = self.next_time();
+                (Prep::Merge { snaps: sel, time }, Class::Additive)
+            }
+            AOp::Damage { .. } => return Ok(None),
+        }))
+    }
+}
+
+fn op_name(op: &AOp) -> &'static str {
+    match op {
+        AOp::Backup { .. } => "backup",
+        AOp::CutBackup { .. } => "crashed_backup",
+        AOp::Forget { .. } => "delete_snapshots",
+        AOp::Save { .. } => "save_snapshots",
+        AOp::Prune(_) => "prune",
+        AOp::RepairIndex { .. } => "repair_index",
+        AOp::RepairSnapshots { delete: true, .. } => "repair_snapshots_delete",
+        AOp::RepairSnapshots { delete: false, .. } => "repair_snapshots_keep",
+        AOp::Rewrite(RwCfg { forget: true, .. }) => "rewrite_forget",
+        AOp::Rewrite(RwCfg { forget: false, .. }) => "rewrite_keep",
+        AOp::Config(_) => "apply_config",
+        AOp::AddKey => "add_key",
+        AOp::DeleteKey { .. } => "delete_key",
+        AOp::CopyInto { .. } => "copy_into",
+        AOp::Merge { .. } => "merge",
+        AOp::Damage { .. } => "pack_lost",
+    }
+}
+
+fn run_ao(c: &AoCase, _ctx: &Ctx) -> Outcome {
+    let mut out = Outcome::pass();
+    macro_rules! fail {
+        ($($arg:tt)*) => {{
+            out.failure = Some(format!($($arg)*));
+            return out;
+        }};
+    }
+    let storage = Storage::new();
+    if let Err(e) = init_with(&storage, &c.cfg, c.at_init) {
+        // not the subject here: accepted configurations are C18's business
+        return out.skip(format!("init_failed: {}", crate::engine::first_line(&e)).chars().take(60).collect::<String>());
+    }
+    let mut w = World {
+        cfg: c.cfg.clone(),
+        storage: storage.clone(),
+        tree: c.tree.clone(),
+        live: Vec::new(),
+        clock: 1_700_000_000,
+        tick: 1000,
+        prunes_after_forget: 0,
+        forgot_since_prune: false,
+        craft_before_prune: false,
+        repacked_or_marked: false,
+        recovered: 0,
+    };
+    if !c.at_init {
+        for op in &c.pre {
+            if w.step(op).is_err() {
+                return out.skip("normal_mode_history_failed");
+            }
+        }
+        if let Some(sel) = c.pre_damage {
+            match lose_data_pack(&storage, &c.cfg, sel) {
+                Ok(true) => {
+                    if cmds::repair_index(&storage, &c.cfg, false, false).is_err() {
+                        return out.skip("normal_mode_history_failed");
+                    }
+                    out = out.class("damaged_before_flag");
+                }
+                Ok(false) => {}
+                Err(_) => return out.skip("normal_mode_history_failed"),
+            }
+        }
+        let mut o = ConfigOptions::default();
+        o.set_append_only = Some(true);
+        if exec(&Prep::Config { opts: o }, &storage, &c.cfg).is_err() {
+            return out.skip("cannot_turn_append_only_on");
+        }
+    }
+    match stored_append_only(&storage, &c.cfg) {
+        Ok(Some(true)) => {}
+        Ok(other) => fail!("append-only was requested but the stored config says {other:?}"),
+        Err(e) => fail!("{e}"),
+    }
+    out = out.class(if c.at_init { "on_at_init" } else { "on_by_apply_config" });
+
+    let mut ph = Phase {
+        cfg: c.cfg.clone(),
+        src_cfg: c.src_cfg.clone(),
+        storage: storage.clone(),
+        tree: w.tree.clone(),
+        base_tree: c.tree.clone(),
+        src_edits: c.src_edits.clone(),
+        clock: w.clock + 10_000,
+        tick: w.tick + 1000,
+        keys: Vec::new(),
+        nkeys: 0,
+        nsaved: 0,
+        src: None,
+    };
+    drop(w);
+
+    let mut destructive_after_backup = 0u64;
+    let mut would_remove_total = 0u64;
+    let mut refused_clean = 0u64;
+    let mut additive_ok = 0u64;
+    let mut executed = 0u64;
+    let mut turned_off = false;
+
+    for (i, op) in c.ops.iter().enumerate() {
+        let name = op_name(op);
+        if let AOp::Damage { sel } = op {
+            match lose_data_pack(&storage, &c.cfg, *sel) {
+                Ok(true) => out = out.class("pack_lost"),
+                Ok(false) => {}
+                Err(e) => fail!("op {i}: cannot decode the index: {e}"),
+            }
+            continue;
+        }
+        let have_snapshots = !storage.ids(FileType::Snapshot).is_empty();
+        let (prep, class) = match ph.prepare(op) {
+            Ok(Some(x)) => x,
+            Ok(None) => continue,
+            Err(e) => {
+                // listing snapshots / building the copy source failed: nothing to judge
+                out = out.class("prepare_failed");
+                let _ = e;
+                continue;
+            }
+        };
+        executed += 1;
+
+        // what the same call does to a copy of the repository in normal mode
+        let mut would: Option<String> = None;
+        if class == Class::Destructive {
+            let fork = match normal_mode_fork(&storage, &c.cfg) {
+                Ok(f) => f,
+                Err(e) => return out.skip(format!("fork_failed: {}", crate::engine::first_line(&e)).chars().take(60).collect::<String>()),
+            };
+            let (_, fslice) = exec_logged(&prep, &fork, &c.cfg);
+            would = destructive(&fslice);
+            if have_snapshots {
+                destructive_after_backup += 1;
+            }
+        }
+
+        let before = storage.files();
+        let (res, slice) = exec_logged(&prep, &storage, &c.cfg);
+        let after = storage.files();
+
+        // invariant, independent of what the call reported
+        if let Some(v) = destructive(&slice) {
+            fail!(
+                "op {i} ({name}) on an append-only repository: {v}; the call returned {}",
+                match &res {
+                    Ok(_) => "Ok".to_string(),
+                    Err(e) => format!("Err({})", crate::engine::first_line(e)),
+                }
+            );
+        }
+        if let Some(v) = lost_file(&before, &after) {
+            fail!("op {i} ({name}) on an append-only repository: {v} afterwards");
+        }
+
+        if let Some(w) = &would {
+            would_remove_total += 1;
+            out = out.class(format!("would_remove:{name}"));
+            match &res {
+                Ok(_) => fail!(
+                    "op {i} ({name}) returned Ok on an append-only repository although the same call in normal mode performs a {w}"
+                ),
+                Err(_) => {
+                    if let Some(m) = first_mutation(&slice, false) {
+                        fail!(
+                            "op {i} ({name}) was refused on an append-only repository but touched the storage before failing: {m}"
+                        );
+                    }
+                    refused_clean += 1;
+                }
+            }
+        }
+
+        if class == Class::Additive {
+            match &res {
+                Ok(o) => {
+                    additive_ok += 1;
+                    if let Some(k) = o.key {
+                        ph.keys.push(k);
+                    }
+                }
+                Err(e) => {
+                    // is it append-only mode that refuses it? compare with normal mode
+                    let fork = match normal_mode_fork(&storage, &c.cfg) {
+                        Ok(f) => f,
+                        Err(e) => return out.skip(format!("fork_failed: {}", crate::engine::first_line(&e)).chars().take(60).collect::<String>()),
+                    };
+                    // the failed attempt may have left files behind; the fork has them too
+                    match exec(&prep, &fork, &c.cfg) {
+                        Ok(_) => fail!(
+                            "op {i} ({name}) only adds files and works in normal mode, but failed on the append-only repository: {}",
+                            crate::engine::first_line(e)
+                        ),
+                        Err(_) => out = out.class(format!("fails_in_normal_mode_too:{name}")),
+                    }
+                }
+            }
+        }
+
+        if let AOp::Config(_) = op {
+            match stored_append_only(&storage, &c.cfg) {
+                Ok(Some(true)) => {}
+                Ok(_) => {
+                    // the flag is off: the statement no longer applies, the program ends
+                    turned_off = true;
+                    break;
+                }
+                Err(e) => fail!("op {i} ({name}): {e}"),
+            }
+        }
+    }
+
+    out.nontrivial = destructive_after_backup >= 1;
+    out.class_if(would_remove_total > 0, "some_call_would_remove")
+        .class_if(turned_off, "turned_off_at_end")
+        .class_if(destructive_after_backup > 0, "destructive_call_after_backup")
+        .count("ops_executed", executed)
+        .count("destructive_calls_after_backup", destructive_after_backup)
+        .count("would_remove_in_normal_mode", would_remove_total)
+        .count("refused_without_touching_storage", refused_clean)
+        .count("additive_ok", additive_ok)
+}
+
+// ------------------------------------------------------------------ sub-check: dry_run
+
+#[derive(Debug, Clone, PartialEq, Eq, Serialize, Deserialize)]
+pub enum Dmg {
+    None,
+    /// a data pack is lost
+    LosePack(u16),
+    /// an index file is lost
+    LoseIndex(u16),
+    Both(u16, u16),
+}
+
+/// changes to the restore destination before the dry run: (kind, selector)
+/// 0 extra file at the top, 1 extra directory with a file, 2 change a file's content,
+/// 3 remove a file, 4 replace a file by a directory, 5 extra file inside a directory
+pub type DestEdit = (u8, u16);
+
+#[derive(Debug, Clone, PartialEq, Eq, Serialize, Deserialize)]
+pub enum DryCmd {
+    Backup { edits: Vec<Edit>, parent: bool },
+    RepairIndex { read_all: bool, damage: Dmg },
+    /// `lose_pack`: a data pack is lost and the index repaired (for real) before the dry run
+    RepairSnapshots { delete: bool, lose_pack: Option<u16>, mask: u8 },
+    Rewrite(RwCfg),
+    /// hot/cold repository: files dropped from the hot / cold part, then both repair commands
+    HotCold { drop_hot: Vec<u16>, drop_cold: Vec<u16> },
+    Restore {
+        snap: u16,
+        delete: bool,
+        verify_existing: bool,
+        /// restore this snapshot for real first (None = destination starts empty)
+        pre_restore: Option<u16>,
+        dest_edits: Vec<DestEdit>,
+    },
+}
+
+#[derive(Debug, Clone, Serialize, Deserialize)]
+pub struct DryCase {
+    pub cfg: RepoCfg,
+    pub tree: MNode,
+    pub history: Vec<HOp>,
+    pub cmd: DryCmd,
+}
+
+fn dry_cmd(p: TreeParams) -> BoxedStrategy<DryCmd> {
+    let dmg = prop_oneof![
+        2 => Just(Dmg::None),
+        3 => any::<u16>().prop_map(Dmg::LosePack),
+        3 => any::<u16>().prop_map(Dmg::LoseIndex),
+        2 => (any::<u16>(), any::<u16>()).prop_map(|(a, b)| Dmg::Both(a, b)),
+    ];
+    prop_oneof![
+        3 => (prop::collection::vec(edit(p), 0..4), any::<bool>()).prop_map(|(edits, parent)| DryCmd::Backup { edits, parent }),
+        3 => (any::<bool>(), dmg).prop_map(|(read_all, damage)| DryCmd::RepairIndex { read_all, damage }),
+        3 => (any::<bool>(), prop::option::weighted(0.7, any::<u16>()), any::<u8>())
+            .prop_map(|(delete, lose_pack, mask)| DryCmd::RepairSnapshots { delete, lose_pack, mask }),
+        3 => rw_cfg().prop_map(DryCmd::Rewrite),
+        2 => (prop::collection::vec(any::<u16>(), 0..4), prop::collection::vec(any::<u16>(), 0..3))
+            .prop_map(|(drop_hot, drop_cold)| DryCmd::HotCold { drop_hot, drop_cold }),
+        4 => (
+            any::<u16>(),
+            prop::bool::weighted(0.8),
+            any::<bool>(),
+            prop::option::weighted(0.7, any::<u16>()),
+            prop::collection::vec((0u8..6, any::<u16>()), 0..5),
+        )
+            .prop_map(|(snap, delete, verify_existing, pre_restore, dest_edits)| DryCmd::Restore {
+                snap,
+                delete,
+                verify_existing,
+                pre_restore,
+                dest_edits,
+            }),
+    ]
+    .boxed()
+}
+
+fn dry_strategy(_ctx: &Ctx) -> BoxedStrategy<DryCase> {
+    repo_cfg()
+        .prop_flat_map(|cfg| {
+            let p = params(&cfg);
+            (
+                Just(cfg),
+                tree(p),
+                prop::collection::vec(hop(p, true), 0..4).prop_map(|mut v| {
+                    v.insert(0, HOp::Backup { edits: vec![], parent: false });
+                    v
+                }),
+                dry_cmd(p),
+            )
+        })
+        .prop_map(|(cfg, tree, history, cmd)| DryCase { cfg, tree, history, cmd })
+        .boxed()
+}
+
+/// judge one dry-run command on a single-store repository
+fn judge_dry(
+    mut out: Outcome,
+    what: &str,
+    storage: &Arc<Storage>,
+    cfg: &RepoCfg,
+    prep: &Prep,
+    normal: &Prep,
+) -> Outcome {
+    // would the same command without the flag change the repository? (non-triviality only)
+    let fork = storage.fork();
+    let (_, fslice) = exec_logged(normal, &fork, cfg);
+    let would_write = first_mutation(&fslice, false).is_some();
+
+    let before = storage.files();
+    let (res, slice) = exec_logged(prep, storage, cfg);
+    let after = storage.files();
+    if let Some(m) = first_mutation(&slice, true) {
+        out.failure = Some(format!(
+            "{what} in dry-run mode performed a {m}; the command returned {}",
+            match &res {
+                Ok(_) => "Ok".to_string(),
+                Err(e) => format!("Err({})", crate::engine::first_line(e)),
+            }
+        ));
+        return out;
+    }
+    if before != after {
+        out.failure = Some(format!("{what} in dry-run mode changed the content of the storage"));
+        return out;
+    }
+    out.nontrivial = would_write && res.is_ok();
+    out.class_if(would_write, "would_write_without_flag")
+        .class_if(res.is_err(), format!("{what}:returned_err"))
+        .class(what.to_string())
+}
+
+fn apply_dest_edits(dest: &Path, edits: &[DestEdit]) -> std::io::Result<u32> {
+    use std::fs;
+    let mut done = 0;
+    for (n, (kind, sel)) in edits.iter().enumerate() {
+        let listing = walk(dest)?;
+        let files: Vec<&Vec<u8>> = listing
+            .iter()
+            .filter(|(_, e)| matches!(e.kind, FsKind::File(_)) && e.nlink == 1)
+            .map(|(k, _)| k)
+            .collect();
+        let dirs: Vec<&Vec<u8>> = listing
+            .iter()
+            .filter(|(_, e)| matches!(e.kind, FsKind::Dir) && e.mode & 0o700 == 0o700)
+            .map(|(k, _)| k)
+            .collect();
+        let path_of = |k: &Vec<u8>| dest.join(crate::model::name_os(k));
+        match kind {
+            0 => {
+                fs::write(dest.join(format!("~extra-{n}")), b"additional file")?;
+                done += 1;
+            }
+            1 => {
+                let d = dest.join(format!("~extradir-{n}"));
+                fs::create_dir_all(&d)?;
+                fs::write(d.join("inner"), b"x")?;
+                done += 1;
+            }
+            2 if !files.is_empty() => {
+                let p = path_of(files[pick_idx(*sel, files.len())]);
+                let mut data = fs::read(&p)?;
+                if data.is_empty() {
+                    data.push(1);
+                } else {
+                    let i = usize::from(*sel) % data.len();
+                    data[i] ^= 0x55;
+                }
+                if fs::write(&p, data).is_ok() {
+                    done += 1;
+                }
+            }
+            3 if !files.is_empty() => {
+                if fs::remove_file(path_of(files[pick_idx(*sel, files.len())])).is_ok() {
+                    done += 1;
+                }
+            }
+            4 if !files.is_empty() => {
+                let p = path_of(files[pick_idx(*sel, files.len())]);
+                if fs::remove_file(&p).is_ok() {
+                    fs::create_dir(&p)?;
+                    fs::write(p.join("inner"), b"y")?;
+                    done += 1;
+                }
+            }
+            5 if !dirs.is_empty() => {
+                let p = path_of(dirs[pick_idx(*sel, dirs.len())]).join(format!("~extra-{n}"));
+                if !p.exists() && fs::write(&p, b"additional file").is_ok() {
+                    done += 1;
+                }
+            }
+            _ => {}
+        }
+    }
+    Ok(done)
+}
+
+fn run_hotcold(c: &DryCase, drop_hot: &[u16], drop_cold: &[u16], mut out: Outcome) -> Outcome {
+    let log = Arc::new(OpLog::default());
+    let cold = Storage::with_log(log.clone(), 0);
+    let hot = Storage::with_log(log.clone(), 1);
+    let cfg = &c.cfg;
+    let bes = |cold: &Arc<Storage>, hot: &Arc<Storage>| {
+        RepositoryBackends::new(
+            Arc::new(cold.handle()) as Arc<dyn WriteBackend>,
+            Some(Arc::new(hot.handle()) as Arc<dyn WriteBackend>),
+        )
+    };
+    // build: init + two backups
+    let built = guarded(|| -> Result<(), String> {
+        let mut cf = cfg.config_file();
+        cf.is_hot = Some(true);
+        let repo = Repository::new(&repo_opts(), &bes(&cold, &hot))
+            .map_err(|e| estr(&e))?
+            .init_with_config(&cfg.credentials(), &KeyOptions::default(), cf)
+            .map_err(|e| format!("init: {}", estr(&e)))?
+            .to_indexed_ids()
+            .map_err(|e| estr(&e))?;
+        let mut t = c.tree.clone();
+        _ = backup_tree(&repo, &t, &ReadSchedule::default(), &force_opts(), snap_template(1_700_000_000, "host", "", ""))?;
+        for op in &c.history {
+            if let HOp::Backup { edits, .. } = op {
+                if edits.is_empty() {
+                    continue;
+                }
+                for e in edits {
+                    _ = apply_edit(&mut t, e, 1001);
+                }
+                _ = backup_tree(&repo, &t, &ReadSchedule::default(), &force_opts(), snap_template(1_700_000_100, "host", "", ""))?;
+                break;
+            }
+        }
+        Ok(())
+    });
+    match built {
+        Ok(Ok(())) => {}
+        _ => return out.skip("hotcold_setup_failed"),
+    }
+    // the two parts drift apart
+    let mut dropped = 0;
+    for s in drop_hot {
+        let keys: Vec<(u8, Id)> = hot.files().keys().filter(|(t, _)| *t != tidx(FileType::Config)).copied().collect();
+        if keys.is_empty() {
+            break;
+        }
+        let (t, id) = keys[pick_idx(*s, keys.len())];
+        if hot.del(crate::membe::tfrom(t), &id) {
+            dropped += 1;
+        }
+    }
+    for s in drop_cold {
+        let keys: Vec<(u8, Id)> = cold
+            .files()
+            .keys()
+            .filter(|(t, _)| *t == tidx(FileType::Snapshot) || *t == tidx(FileType::Index))
+            .copied()
+            .collect();
+        if keys.is_empty() {
+            break;
+        }
+        let (t, id) = keys[pick_idx(*s, keys.len())];
+        if cold.del(crate::membe::tfrom(t), &id) {
+            dropped += 1;
+        }
+    }
+    let before = (cold.files(), hot.files());
+    let pos = log.len();
+    let r1 = guarded(|| {
+        Repository::new(&repo_opts(), &bes(&cold, &hot))
+            .map_err(|e| estr(&e))?
+            .repair_hotcold_except_packs(true)
+            .map_err(|e| estr(&e))
+    });
+    let r2 = guarded(|| {
+        Repository::new(&repo_opts(), &bes(&cold, &hot))
+            .map_err(|e| estr(&e))?
+            .open(&cfg.credentials())
+            .map_err(|e| estr(&e))?
+            .repair_hotcold_packs(true)
+            .map_err(|e| estr(&e))
+    });
+    let mut all = log.snapshot();
+    let slice = all.split_off(pos.min(all.len()));
+    if let Some(m) = first_mutation(&slice, true) {
+        out.failure = Some(format!("repair of a hot/cold repository in dry-run mode performed a {m}"));
+        return out;
+    }
+    if before != (cold.files(), hot.files()) {
+        out.failure = Some("repair of a hot/cold repository in dry-run mode changed the content of a store".into());
+        return out;
+    }
+    let ok1 = matches!(r1, Ok(Ok(())));
+    let ok2 = matches!(r2, Ok(Ok(())));
+    out.nontrivial = dropped > 0 && ok1;
+    out.class("hotcold")
+        .class_if(dropped > 0, "would_write_without_flag")
+        .class_if(!ok1, "hotcold_except_packs:returned_err")
+        .class_if(!ok2, "hotcold_packs:returned_err")
+}
+
+fn run_dry(c: &DryCase, _ctx: &Ctx) -> Outcome {
+    let mut out = Outcome::pass();
+    if let DryCmd::HotCold { drop_hot, drop_cold } = &c.cmd {
+        return run_hotcold(c, drop_hot, drop_cold, out);
+    }
+    let mut w = match World::new(&c.cfg, &c.tree) {
+        Ok(w) => w,
+        Err(_) => return out.skip("init_failed"),
+    };
+    for op in &c.history {
+        if w.step(op).is_err() {
+            return out.skip("history_failed");
+        }
+    }
+    let storage = w.storage.clone();
+    let cfg = c.cfg.clone();
+    match &c.cmd {
+        DryCmd::HotCold { .. } => unreachable!(),
+        DryCmd::Backup { edits, parent } => {
+            let mut t = w.tree.clone();
+            for e in edits {
+                _ = apply_edit(&mut t, e, w.tick + 1);
+            }
+            let mk = |dry_run| Prep::Backup { tree: t.clone(), parent: *parent, time: w.clock + 100, cut: None, dry_run };
+            judge_dry(out, "backup", &storage, &cfg, &mk(true), &mk(false))
+        }
+        DryCmd::RepairIndex { read_all, damage } => {
+            let (pack, index) = match damage {
+                Dmg::None => (None, None),
+                Dmg::LosePack(p) => (Some(*p), None),
+                Dmg::LoseIndex(i) => (None, Some(*i)),
+                Dmg::Both(p, i) => (Some(*p), Some(*i)),
+            };
+            if let Some(p) = pack {
+                match lose_data_pack(&storage, &cfg, p) {
+                    Ok(true) => out = out.class("pack_lost"),
+                    Ok(false) => {}
+                    Err(_) => return out.skip("index_not_decodable"),
+                }
+            }
+            if let Some(i) = index {
+                let ids = storage.ids(FileType::Index);
+                if !ids.is_empty() {
+                    // index file ids are random: order by size, then content
+                    let mut ids: Vec<_> = ids
+                        .into_iter()
+                        .map(|id| (storage.get(FileType::Index, &id).map_or(0, |d| d.len()), id))
+                        .collect();
+                    ids.sort();
+                    let (_, id) = ids[pick_idx(i, ids.len())];
+                    if storage.del(FileType::Index, &id) {
+                        out = out.class("index_file_lost");
+                    }
+                }
+            }
+            let mk = |dry_run| Prep::RepairIndex { read_all: *read_all, dry_run };
+            judge_dry(out, "repair_index", &storage, &cfg, &mk(true), &mk(false))
+        }
+        DryCmd::RepairSnapshots { delete, lose_pack, mask } => {
+            if let Some(p) = lose_pack {
+                match lose_data_pack(&storage, &cfg, *p) {
+                    Ok(true) => {
+                        if cmds::repair_index(&storage, &cfg, false, false).is_err() {
+                            return out.skip("repair_index_failed");
+                        }
+                        out = out.class("pack_lost");
+                    }
+                    Ok(false) => {}
+                    Err(_) => return out.skip("index_not_decodable"),
+                }
+            }
+            let snaps = match list_snaps(&storage, &cfg) {
+                Ok(s) if !s.is_empty() => s,
+                Ok(_) => return out.skip("no_snapshot"),
+                Err(_) => return out.skip("listing_failed"),
+            };
+            let sel = by_mask(&snaps, *mask);
+            let mk = |dry_run| Prep::RepairSnaps { snaps: sel.clone(), delete: *delete, dry_run };
+            judge_dry(out, "repair_snapshots", &storage, &cfg, &mk(true), &mk(false))
+        }
+        DryCmd::Rewrite(rw) => {
+            let snaps = match list_snaps(&storage, &cfg) {
+                Ok(s) if !s.is_empty() => s,
+                Ok(_) => return out.skip("no_snapshot"),
+                Err(_) => return out.skip("listing_failed"),
+            };
+            let sel = by_mask(&snaps, rw.mask);
+            let mk = |dry_run| {
+                let (opts, trees) = rw.options(dry_run);
+                Prep::Rewrite { snaps: sel.clone(), opts, trees }
+            };
+            let what = if rw.trees { "rewrite_snapshots_and_trees" } else { "rewrite_snapshots" };
+            judge_dry(out, what, &storage, &cfg, &mk(true), &mk(false))
+        }
+        DryCmd::Restore { snap, delete, verify_existing, pre_restore, dest_edits } => {
+            let live: Vec<SnapshotFile> = w
+                .live
+                .iter()
+                .filter(|l| !l.pending_recovery)
+                .map(|l| l.snap.clone())
+                .collect();
+            if live.is_empty() {
+                return out.skip("no_snapshot");
+            }
+            let repo = match open_full(&storage, &cfg) {
+                Ok(r) => r,
+                Err(_) => return out.skip("open_failed"),
+            };
+            let scratch = Scratch::new("c15");
+            let dest = scratch.path().join("dest");
+            if std::fs::create_dir_all(&dest).is_err() {
+                return out.skip("scratch_failed");
+            }
+            let ropts = RestoreOptions::default()
+                .delete(*delete)
+                .verify_existing(*verify_existing)
+                .numeric_id(true);
+            if let Some(p) = pre_restore {
+                let s = &live[pick_idx(*p, live.len())];
+                if restore_snapshot(&repo, s, &dest, &RestoreOptions::default().numeric_id(true)).is_err() {
+                    return out.skip("pre_restore_failed");
+                }
+                out = out.class("destination_restored_before");
+            }
+            let edited = match apply_dest_edits(&dest, dest_edits) {
+                Ok(n) => n,
+                Err(_) => return out.skip("destination_setup_failed"),
+            };
+            let target = &live[pick_idx(*snap, live.len())];
+            let fs_before = match walk(&dest) {
+                Ok(f) => f,
+                Err(_) => return out.skip("destination_walk_failed"),
+            };
+            let before = storage.files();
+            let pos = storage.log.len();
+            let run = |dry_run: bool| {
+                guarded(|| -> Result<(), String> {
+                    let node = repo
+                        .node_from_snapshot_and_path(target, "")
+                        .map_err(|e| format!("root node: {}", estr(&e)))?;
+                    let ls = repo
+                        .ls(&node, &LsOptions::default())
+                        .map_err(|e| format!("ls: {}", estr(&e)))?;
+                    let d = LocalDestination::new(dest.to_str().expect("utf-8 scratch path"), true, false)
+                        .map_err(|e| format!("destination: {}", estr(&e)))?;
+                    _ = repo
+                        .prepare_restore(&ropts, ls, &d, dry_run)
+                        .map_err(|e| format!("prepare_restore returned an error: {}", estr(&e)))?;
+                    Ok(())
+                })
+            };
+            let res = run(true);
+            let mut log = storage.log.snapshot();
+            let slice = log.split_off(pos.min(log.len()));
+            if let Some(m) = first_mutation(&slice, true) {
+                out.failure = Some(format!("prepare_restore in dry-run mode performed a {m} on the repository"));
+                return out;
+            }
+            if before != storage.files() {
+                out.failure = Some("prepare_restore in dry-run mode changed the content of the storage".into());
+                return out;
+            }
+            let fs_after = match walk(&dest) {
+                Ok(f) => f,
+                Err(e) => {
+                    out.failure = Some(format!("the destination cannot be walked after prepare_restore in dry-run mode: {e}"));
+                    return out;
+                }
+            };
+            if fs_before != fs_after {
+                let diff = diff_fs(&fs_before, &fs_after);
+                out.failure = Some(format!(
+                    "prepare_restore in dry-run mode (delete: {delete}) changed the destination directory: {diff}"
+                ));
+                return out;
+            }
+            let ok = matches!(res, Ok(Ok(())));
+            // would the real run have changed the destination?
+            let mut would = false;
+            if ok {
+                _ = run(false);
+                would = walk(&dest).map_or(true, |f| f != fs_before);
+            }
+            out.nontrivial = ok && would;
+            out.class("prepare_restore")
+                .class_if(would, "would_write_without_flag")
+                .class_if(!ok, "prepare_restore:returned_err")
+                .class_if(edited > 0, "destination_edited")
+                .class_if(*delete, "restore_delete_on")
+        }
+    }
+}
+
+fn diff_fs(a: &BTreeMap<Vec<u8>, crate::fsutil::FsEntry>, b: &BTreeMap<Vec<u8>, crate::fsutil::FsEntry>) -> String {
+    for (k, e) in a {
+        match b.get(k) {
+            None => return format!("{:?} was removed", crate::repo::show_path(k)),
+            Some(f) if f != e => return format!("{:?} was modified", crate::repo::show_path(k)),
+            _ => {}
+        }
+    }
+    for k in b.keys() {
+        if !a.contains_key(k) {
+            return format!("{:?} was created", crate::repo::show_path(k));
+        }
+    }
+    "no difference".into()
+}
 
 pub fn spec() -> PropSpec {
     PropSpec {
         id: "C15",
         level: "exploration",
-        rule: "",
-        assumptions: vec![],
-        subs: vec![],
+        rule: "append_only: proptest programs of 1–10 operations {backup, crashed backup (handle dies after 0–9 writes), delete_snapshots, save_snapshots, prune_plan+prune (generated options), repair_index (read_all on/off), repair_snapshots (delete on/off, snapshot subset), rewrite_snapshots / rewrite_snapshots_and_trees (forget on/off, excludes, label/tag changes), apply_config (generated accepted options incl. append-only off = end of program), add_key, delete_key, copy into from a second repository, merge_snapshots, loss of a data pack} on a repository with a generated configuration whose append-only flag is set at init (30 %) or by apply_config after a generated normal-mode history (backups, forgets, prunes, crashed and duplicate backups). Every destructive call is also run on a normal-mode copy to learn whether it would remove or replace a snapshot/index/pack file. Non-trivial = at least one destructive call (delete_snapshots, prune, repair_index, repair_snapshots with delete, rewrite with forget) executed while the flag is on and at least one snapshot exists. dry_run: generated history (1–4 operations incl. crafted states) x one command {backup, repair_index (nothing / pack / index file / both lost), repair_snapshots (undamaged or pack lost + index repaired), rewrite_snapshots[_and_trees], repair_hotcold_except_packs + repair_hotcold_packs on a hot/cold pair with files dropped from either part, prepare_restore (delete on/off, verify-existing, destination empty or restored from some snapshot and then edited: extra files/dirs, changed/removed files, file replaced by directory)} with the dry-run flag. Non-trivial = the command returned Ok and the same command without the flag does write (repository or, for prepare_restore, destination). Distinct by hash of the case.",
+        assumptions: vec![
+            "append-only mode is judged on handles opened after the flag was stored; a handle that was opened earlier and still holds the old config is not covered",
+            "key files and the config file are not among the protected file types of the statement; delete_key / apply_config are executed and only checked against the snapshot/index/pack invariant",
+            "repair_hotcold_* and init_hot are not part of the append-only programs (they only copy files); hot/cold repair is covered in the dry-run sub-check",
+            "a call that fails in append-only mode and in normal mode alike is not attributed to append-only mode",
+            "cache directory writes are out of reach: every handle uses no_cache",
+        ],
+        subs: vec![
+            Box::new(Sub {
+                name: "append_only",
+                cases_quick: 400,
+                cases_thorough: 12_000,
+                max_shrink_iters: 300,
+                strategy: ao_strategy,
+                run: run_ao,
+            }) as Box<dyn DynSub>,
+            Box::new(Sub {
+                name: "dry_run",
+                cases_quick: 300,
+                cases_thorough: 9000,
+                max_shrink_iters: 300,
+                strategy: dry_strategy,
+                run: run_dry,
+            }),
+        ],
         extra: None,
     }
 }
